@@ -1310,7 +1310,7 @@ class PythonGenericType(DataType):
     generic_type: Any = dataclasses.field(default=None, init=False)
     special_type: Any = dataclasses.field(default=None, init=False)
     coercion_model: Type[BaseModel] = dataclasses.field(  # type: ignore
-        default=None, init=False
+        default=None, init=False, compare=False
     )
     _pandas_type = object
 
